@@ -44,11 +44,10 @@ def gen_thread(rng, tid, nops, big, avoid=()):
             ops.append("init %d %d" % (h, h))
     marker = 0
     have = set()
-    # Slots holding a 12-bit lossy 4:2:0 JPEG: decoding those with merged upsampling (FASTUPSAMPLE) and a scaling
-    # factor that gives an odd output height hits the sequential defect reported in design/C15.md (Findings:
-    # uninitialised luma row -> range_limit[] overrun in h2v2_merged_upsample).  The random stream steers around
-    # it -- only while the deterministic repro corpus/C15/merged12_odd_height.pending still fails on the tree
-    # under test (see pending_findings) -- so that the check explores everything else.
+    # Steering around reported-but-undecided findings (names of corpus/C15/*.pending that still fail, see
+    # pending_findings).  "merged12_odd_height" (F-C15-1, fixed): slots holding a 12-bit lossy 4:2:0 JPEG were not
+    # decoded with FASTUPSAMPLE; "errstr_two_instances" (F-C15-2, fixed): no cross-instance query.  Both are
+    # regression cases in corpus/C15 now, so nothing is steered around at present.
     risky = set()
     for k in range(nops):
         r = rng.below(100)
